@@ -56,7 +56,7 @@ def run_single(case):
         if case.get('ext'):
             return obs, obs, {'C03': dagmon.monitor_ext(case, recs[0])}
         if case.get('poison'):
-            return obs, obs, {'C03': dagmon.monitor_poison(case, recs[0])}
+            return obs, obs, {'C03': dagmon.monitor_poison(case, recs[0]), 'C02': dagmon.monitor_poison_c02(case, recs[0])}
         for r in recs:
             v, _ = dagmon.monitor(dagmon.phase_case(case, r), r)
             for pid, vs in v.items():
@@ -98,6 +98,8 @@ def shrink(case, pid, budget=60):
             c = copy.deepcopy(cur); c['ctx'] = 0; cands.append(c)
         if cur['bust']:
             c = copy.deepcopy(cur); c['bust'] = 0; cands.append(c)
+        if cur.get('sub'):
+            c = copy.deepcopy(cur); del c['sub']; cands.append(c)
         for c in cands:
             steps += 1
             if steps > budget:
